@@ -37,7 +37,7 @@ def run(ctx):
     thorough = ctx.tier == "thorough"
     # 1. parser model vs real parser on token sequences (acceptance + alternatives taken), semantic subset on the real code
     rows = c17.hparse(["-mode", "seqs", "-n", "30000" if thorough else "2500", "-seed", str(ctx.seed)] +
-                      (["-exhaust", "6"] if thorough else ["-exhaust", "3"]))
+                      (["-exhaust", "5"] if thorough else ["-exhaust", "3"]))
     bad = c17.model_mismatches(ctx, "cases_c18", rows)
     for i in bad[:5]:
         ctx.violation({"kind": "parser-model-vs-real-parser", "case": rows[i]})
